@@ -583,62 +583,10 @@ def v9(rep):
     """A vector of nbits bits occupies nwords words; the bits of the last word beyond nbits are garbage (bitvSetAll and bitvNot
     fill whole words).  A query that reads the last word whole must mask it with the low `nbits % W` bits -- and that mask is
     EMPTY when nbits is a multiple of W, where the whole word is significant.  So every low-bits mask whose count is a remainder
-    modulo the word size must be unreachable for a zero remainder: an earlier `if (<same remainder> == 0) return/...` in the
-    function, or an enclosing test of the remainder."""
-    f = common.extract("bitv.c", all_trees=True)
-    n = 0
-    for fn in sorted(f.funcs.values(), key=lambda x: x.get("l", 0)):
-        body = fn.get("body")
-        if not body:
-            continue
-        par = None
-        for m, k in _lowbits_masks(body):
-            if par is None:
-                par = common.parents(body)
-            n += 1
-            krepr = render(k)
-            key = "tail-mask-zero-count-guarded:%s" % fn["n"]
-            where = "bitv.c:%d (%s)" % (m["l"], fn["n"])
-
-            def tests_zero(c):
-                for y in walk(c):
-                    if y["k"] == "BinaryOperator" and y["op"] in ("==", "!=") and const_value(y["c"][1]) == 0 and \
-                            render(strip(y["c"][0])) == krepr:
-                        return y["op"]
-                    if y["k"] == "UnaryOperator" and y["op"] == "!" and render(strip(y["c"][0])) == krepr:
-                        return "=="
-                return None
-            guarded = False
-            # (a) an earlier statement of an enclosing block: if (k == 0) <leaves>
-            cur = m
-            while cur["id"] in par and not guarded:
-                p_ = par[cur["id"]]
-                if p_["k"] == "CompoundStmt":
-                    for st in p_["c"]:
-                        if any(y is cur for y in walk(st)):
-                            break
-                        if st["k"] == "IfStmt" and tests_zero(st["c"][0]) == "==" and common.ends_flow(st["c"][1]):
-                            guarded = True
-                if p_["k"] == "IfStmt":
-                    op = tests_zero(p_["c"][0])
-                    in_then = any(y is cur for y in walk(p_["c"][1]))
-                    in_else = len(p_["c"]) > 2 and p_["c"][2] is not None and any(y is cur for y in walk(p_["c"][2]))
-                    if (op == "!=" and in_then) or (op == "==" and in_else):
-                        guarded = True
-                if p_["k"] == "ConditionalOperator":
-                    op = tests_zero(p_["c"][0])
-                    if (op == "!=" and any(y is cur for y in walk(p_["c"][1]))) or \
-                            (op == "==" and any(y is cur for y in walk(p_["c"][2]))):
-                        guarded = True
-                cur = p_
-            if guarded:
-                rep.ok("V9", key, sample={"mask": render(m), "count": krepr})
-            else:
-                rep.violation("V9", key, where,
-                              "`%s` is the mask of the low (%s) bits of the last word; when the vector length is a multiple of the word "
-                              "size the count is 0 and the mask is empty, so the whole last word -- all of it significant -- is ignored. "
-                              "No test of that remainder against 0 precedes or encloses the mask in %s" % (render(m), krepr, fn["n"]))
-    rep.floor("tail masks of the last bit-vector word", n, 1)
+    modulo the word size must be unreachable for a zero remainder (rules/lowmask.py; the same rule is C02-Q16 on the
+    optimiser's units)."""
+    from . import lowmask
+    lowmask.report(rep, "V9", ["bitv.c", "intset.c", "table.c", "dnf.c"], key="tail-mask-zero-count-guarded", with_unit=False)
 
 
 V10_UNITS = ("table.c", "btree.c", "priq.c", "bitv.c", "intset.c", "dnf.c")
@@ -723,8 +671,6 @@ def run(tier, only=None):
     v9(rep)
     v10(rep)
     v11(rep)
-    from . import lowmask
-    lowmask.report(rep, "V12", ["bitv.c", "intset.c", "table.c", "dnf.c"])
     try:
         v5(rep)
     except AnalysisBroken as e:
